@@ -7,6 +7,7 @@ EXPLANATION = (
     "data-dependent on that transaction (derived from it, or from an overlay built on it); a view obtained from the database handle alone "
     "(`db.snapshot()`) cannot contain the transaction's earlier statements. Backward data slice of the snapshot argument in every such function "
     "of the C API / bindings / facade. What the executor then does with the view is not decided."
+    " C24.2: the read view of a statement run on a caller-owned transaction traces, in its own frame or through parameters of its callers, to a snapshot() call — never to a field of a long-lived handle."
 )
 
 EXEC_NAMES = ("execute_mixed", "execute_write", "execute_write_with_rows", "execute_streaming")
